@@ -2774,6 +2774,12 @@ func main() {
 	}
 	sb.WriteString("].\n")
 	writeIfChanged(filepath.Join(verif, "coq/Gen/LockTable.v"), sb.String())
+	// ---- lock balance per function path (balance.go): coq/Gen/LockTableBalance.v
+	bal, err := runBalance(a, verif, reachedFns)
+	if err != nil {
+		fmt.Fprintln(os.Stderr, "locktable: balance:", err)
+		os.Exit(2)
+	}
 	// ---- JSON side output
 	var rn []string
 	for _, r := range roots {
@@ -2781,7 +2787,8 @@ func main() {
 	}
 	js := map[string]any{"known_keys": known, "accesses": al, "lock_order": ol, "unresolved": unres, "roots": rn,
 		"address_escapes": a.addrEscapes, "atomic_fields": atomicFields, "fresh_receiver_helpers": freshCalls, "fresh_receiver_accesses_skipped": freshSkipped, "functions_reached": len(reachedFns), "functions_total": len(a.order), "guarded_fields": len(guards),
-		"acquisitions": aql, "abstract_locks": a.abstract, "acquisitions_outside_rank_hint": leftOut, "gate_violations": gateViolations, "bbolt_read_transactions_left_out": a.readTxns}
+		"acquisitions": aql, "abstract_locks": a.abstract, "acquisitions_outside_rank_hint": leftOut, "gate_violations": gateViolations, "bbolt_read_transactions_left_out": a.readTxns,
+		"balance": bal}
 	// the side file, and a copy of its own for a tagged run (bin/try-seed, mutant
 	// runs): another check regenerating the shared file meanwhile must not change
 	// what this run's hook reads
@@ -2811,4 +2818,15 @@ func main() {
 	}
 	fmt.Printf("locktable: %d roots, %d/%d functions reached, %d accesses (%d not under their guard), %d order pairs, %d acquisition sites, %d abstract locks, %d unresolved\n",
 		len(roots), len(reachedFns), len(a.order), len(al), bad, len(ol), len(aql), len(absNames), len(unres))
+	nlive := 0
+	for _, r := range bal.Rows {
+		if r.Allowed == "" {
+			nlive++
+			if verbose {
+				fmt.Printf("BALANCE %s %s %s:%s acquired %s, %s at %s\n", r.Class, r.Fn, r.Lock, coqMode(r.W), r.AcqPos, r.ExitKind, r.ExitPos)
+			}
+		}
+	}
+	fmt.Printf("locktable: balance: %d functions analysed, %d with lock events, %d exit states (%d at panics), %d rows not balanced, %d unresolved, %d declared hand-overs, %d closures inlined\n",
+		bal.FnTotal, bal.FnWithEvents, bal.ExitsChecked, bal.PanicExits, nlive, len(bal.Unresolved), len(bal.Handovers), len(bal.ClosuresInlined))
 }
